@@ -80,7 +80,14 @@ def sweep(ctx):
         for desc, s in perturbed(ctx, t, bi, 6 if ctx.tier == "quick" else 12):
             srcs.append(s)
             meta.append((bi, desc))
-    res = vlib.harness("compile", [tg.case_line(s) for s in srcs])
+    # multi-file programs: same-named blobs with different field sets in two modules
+    fam = tg.multi_file_blob_cases(vlib.rng(ctx.seed, "c02-multi"), 24 if ctx.tier == "quick" else 200)
+    extras = [None] * len(srcs)
+    for desc, m, ex, must_reject in fam:
+        srcs.append(m)
+        extras.append(ex)
+        meta.append((-1, "multi-file " + desc))
+    res = vlib.harness("compile", [tg.case_line(s, extra=ex) for s, ex in zip(srcs, extras)])
     stats = collections.Counter()
     run_src, run_meta, luas = [], [], []
     for (bi, desc), s, l in zip(meta, srcs, res):
